@@ -41,7 +41,7 @@ func (vm *varyMatcher) VaryHeadersMatch(entries ResponseRefs, reqHdr http.Header
 		bVary := strings.TrimSpace(b.Vary)
 
 		// Responses with Vary: "*" are least preferred
-		switch aIsStar, bIsStar := aVary == "*", bVary == "*"; {
+		switch aIsStar, bIsStar := varyHasStar(aVary), varyHasStar(bVary); {
 		case aIsStar && !bIsStar:
 			return 1 // b preferred
 		case bIsStar && !aIsStar:
@@ -69,17 +69,27 @@ func (vm *varyMatcher) VaryHeadersMatch(entries ResponseRefs, reqHdr http.Header
 	return -1, false // No match found
 }
 
+// varyHasStar reports whether "*" is a member of a Vary field value.
+func varyHasStar(vary string) bool {
+	for name := range TrimmedCSVSeq(vary) {
+		if name == "*" {
+			return true
+		}
+	}
+	return false
+}
+
 func (vm *varyMatcher) varyHeadersMatchOne(entry *ResponseRef, reqHeader http.Header) bool {
-	if entry.Vary == "*" {
-		return false // Vary: "*" never matches
+	if varyHasStar(entry.Vary) {
+		return false // a Vary list with the member "*" never matches (RFC 9111 §4.1)
 	}
 	for field, value := range entry.VaryResolved {
 		reqValues := headerValues(reqHeader, field)
 		// an empty value is comparable and means "no variation"
 		reqValue := ""
 		if len(reqValues) > 0 {
-			// NOTE: The policy of this cache is to use just the first header line
-			reqValue = vm.hvn.NormalizeHeaderValue(field, reqValues[0])
+			// several field lines are one list (RFC 9110 §5.3)
+			reqValue = vm.hvn.NormalizeHeaderValue(field, strings.Join(reqValues, ","))
 		}
 		if reqValue != value {
 			return false
